@@ -44,7 +44,11 @@ impl Group for HbGroup {
         let delays: Vec<u64> = (0..nd).map(|_| { let m = if rng.chance(1, 8) { t + 10 * rng.below(5) } else { 10 * rng.below(t / 10) }; m + 3 }).collect();
         let silent = match rng.below(4) { 0 => "never".to_string(), _ => rng.below(9).to_string() };
         let horizon = (rng.range(3, 14)) * i.max(t);
-        let head = if rng.chance(1, 3) { format!("hb runf {}", rng.pick(&[5u64, 7])) } else { "hb run".to_string() };
+        // slow flush: while the monitor is inside a write it cannot act on a deadline; if a deadline coincides with a tick
+        // (timeout a multiple of the interval) tokio's select! picks the ready branch at random and the outcome of a late
+        // answer landing inside that write differs between the two orders - a tie the deterministic model cannot predict,
+        // and nothing the property speaks about: such pairs run without the slow flush
+        let head = if t % i != 0 && rng.chance(1, 3) { format!("hb runf {}", rng.pick(&[5u64, 7])) } else { "hb run".to_string() };
         Case { lines: vec![format!("{head} {i} {t} {silent} {horizon} {}", delays.iter().map(|d| d.to_string()).collect::<Vec<_>>().join(" "))] }
     }
 
@@ -112,16 +116,16 @@ impl Group for HbGroup {
                 });
                 // run until the session closes or the horizon
                 let mut closed_at: Option<u64> = None;
-                let deadline = t0 + Duration::from_millis(horizon);
                 // every event of a case lies on the 10 ms grid (+3 answers, +5/+7 slow flushes): looking once per slot,
                 // at its 9th millisecond, observes the slot in which the session was closed
                 loop {
                     if node.session.is_closed() { closed_at = Some((tokio::time::Instant::now() - t0).as_millis() as u64); break; }
                     let now = tokio::time::Instant::now();
-                    if now >= deadline { break; }
                     let el = (now - t0).as_millis() as u64;
+                    // the horizon is exclusive: the last look is at horizon - 1 (events AT the horizon are not part of the case)
+                    if el + 1 >= horizon { break; }
                     let next = if el % 10 < 9 { el - el % 10 + 9 } else { el + 10 };
-                    tokio::time::sleep_until(t0 + Duration::from_millis(next)).await;
+                    tokio::time::sleep_until(t0 + Duration::from_millis(next.min(horizon - 1))).await;
                 }
                 peer.abort();
                 let answers = answered_at.lock().unwrap().clone();
